@@ -8,9 +8,10 @@ if ! git apply --check "$patch" 2>/dev/null; then echo "PATCH DOES NOT APPLY: $p
 git apply "$patch"
 cd /verif
 rc=0
-for p in "$@"; do
-  VERIF_DIR=/tmp/seedverif bin/annverif check -property $p > /tmp/seedtest.$p.out 2>&1; r=$?
-  echo "== $p exit=$r"; grep -A1 "^VIOLATION" /tmp/seedtest.$p.out | grep -v "^VIOLATION\|^--" | cut -c1-260 | head -8
+ps=$(IFS=,; echo "$*")
+for p in $ps; do
+  VERIF_DIR=/tmp/seedverif bin/annverif check -property $p > /tmp/seedtest.out 2>&1; r=$?
+  echo "== $p exit=$r"; grep -A1 "^VIOLATION" /tmp/seedtest.out | grep -v "^VIOLATION\|^--" | cut -c1-260 | head -8
   [ $r -ne 0 ] && rc=1
 done
 git -C /repo checkout -q -- .
